@@ -243,6 +243,7 @@ impl Property for C08 {
             None
         };
         let mut find = FindScenario::new(spec, vec![]);
+        find.gen_extras(rng, true);
         let nout = rng.urange(1, 12);
         find.outcomes = if rng.chance(1, 2) { gen_outcomes(rng, nout, true) } else { vec![] };
         if tight {
